@@ -82,6 +82,11 @@ def gen_case(rng, tier, g):
             names = ['ab', 'a', 'b', 'abc', 'bc']
             left = [names[:nfl]] + left[1:]
             right = [names[:nfr]] + right[1:]
+        if not ragged and rng.random() < 0.3:
+            # the fields of the right table in another order: a key named
+            # the same sits at different positions in the two tables
+            k = rng.randrange(1, nfr)
+            right = [r_[k:] + r_[:k] for r_ in right]
         if rng.random() < 0.12:
             right = right[:1]
         if rng.random() < 0.08:
@@ -135,10 +140,20 @@ def gen_case(rng, tier, g):
                             profile='nonone')[1]
             edit = [rng.choice(['append', 'delete', 'replace']),
                     rng.randrange(8), row]
+        pre_edit = None
+        if rng.random() < 0.15:
+            # the build side changes after the view was constructed and
+            # before it is iterated for the first time: views are lazy, the
+            # first pass sees the tables as they are then
+            row = gen_table(rng, 1, minrows=1, nfields=nfr if kind !=
+                            'hashrightjoin' else nfl, ragged=False,
+                            profile='nonone')[1]
+            pre_edit = [rng.choice(['append', 'delete', 'replace']),
+                        rng.randrange(8), row]
         return {'prop': PROP, 'machine': 'join', 'kind': kind, 'left': left,
                 'right': right, 'keyspec': keyspec, 'args': args,
                 'cache': cache, 'steps': steps, 'shape': shape,
-                'edit': edit}
+                'edit': edit, 'pre_edit': pre_edit}
     fn = LOOKUPS[g % len(LOOKUPS)]
     nf = 4
     table = gen_table(rng, maxrows, nfields=nf, ragged=False,
@@ -267,9 +282,28 @@ class _Inapplicable(Exception):
     pass
 
 
+def _edit_rows(data, edit):
+    kind_, idx, row = edit
+    row = dec_table([row])[0]
+    if kind_ == 'append' or len(data) <= 1:
+        data.append(list(row))
+    elif kind_ == 'delete':
+        del data[1 + idx % (len(data) - 1)]
+    else:
+        data[1 + idx % (len(data) - 1)] = list(row)
+
+
 def _run_join(e, case, log, probes):
     kind = case['kind']
     left, right = dec_table(case['left']), dec_table(case['right'])
+    left0 = [list(r) for r in left]
+    right0 = [list(r) for r in right]
+    if case.get('pre_edit'):
+        # (the model is computed on the tables as they are when the first
+        # pass starts; the view is constructed on the tables as generated)
+        _edit_rows(right if kind != 'hashrightjoin' else left,
+                   case['pre_edit'])
+        probes['build-side-edit-before-first-pass'] = 1
     try:
         want = join_model(kind, left, right, case['keyspec'], case['args'])
     except (ValueError, IndexError) as ex:
@@ -282,9 +316,12 @@ def _run_join(e, case, log, probes):
     if kind in ('hashjoin', 'hashleftjoin', 'hashrightjoin'):
         hkw['cache'] = case['cache']
     what = '%s(%r)' % (kind, hkw)
-    ls = SimTable([list(r) for r in left], mode='alias', name='left')
-    rs = SimTable([list(r) for r in right], mode='alias', name='right')
+    ls = SimTable(left0, mode='alias', name='left')
+    rs = SimTable(right0, mode='alias', name='right')
     view = getattr(e, kind)(ls, rs, **hkw)
+    if case.get('pre_edit'):
+        _edit_rows((rs if kind != 'hashrightjoin' else ls).rows,
+                   case['pre_edit'])
     sch = Sched([view], [want_c], log=log,
                 expect_fault=lambda t, ex: isinstance(
                     ex, INJECTED_SOURCE_FAILURES))
@@ -315,15 +352,7 @@ def _run_join(e, case, log, probes):
         if case['cache']:
             probes['second-pass-from-cached-lookup'] = 1
         if case.get('edit'):
-            kind_, idx, row = case['edit']
-            row = dec_table([row])[0]
-            data = build.rows
-            if kind_ == 'append' or len(data) <= 1:
-                data.append(list(row))
-            elif kind_ == 'delete':
-                del data[1 + idx % (len(data) - 1)]
-            else:
-                data[1 + idx % (len(data) - 1)] = list(row)
+            _edit_rows(build.rows, case['edit'])
             cached = case['cache'] and kind in ('hashjoin', 'hashleftjoin',
                                                 'hashrightjoin')
             l2 = [list(r) for r in ls.rows]
@@ -600,10 +629,11 @@ def shrink_candidates(case):
             c = copy.deepcopy(case)
             del c['args'][k]
             yield c
-        if case.get('edit'):
-            c = copy.deepcopy(case)
-            c['edit'] = None
-            yield c
+        for k in ('edit', 'pre_edit'):
+            if case.get(k):
+                c = copy.deepcopy(case)
+                c[k] = None
+                yield c
         for side in ('left', 'right'):
             t = case[side]
             for ri in range(1, len(t)):
